@@ -12,7 +12,7 @@ from .common import Check
 USE_TXT = {"none": None, "all": "use %s", "onlyx": "use %s, only: x", "onlyy": "use %s, only: y",
            "onlylx": "use %s, only: lx => x", "renlx": "use %s, lx => x"}
 TEMPLATES = ["{n} = {n} + 1", "{n}={n}+1", "call sink({n}, {n})", "if ({n} > {n}) {n} = {n}", "print *, '{n}', \"{n}\", {n} ! {n}",
-             "{n}={n}*{n}-{n}"]
+             "{n}={n}*{n}-{n}", "print *, 'stop! {n}', {n}, \"it's {n}!\", {n}"]
 
 
 class Doc:
